@@ -23,3 +23,12 @@ Lemma corr2 : corr2_facts = true.
 Proof. vm_cast_no_check (eq_refl true). Qed.
 Lemma whfast_dh : whfast_dh_ok = true.
 Proof. vm_cast_no_check (eq_refl true). Qed.
+
+(* round 3: leading part of the lazy schemes = the modified-kick words (so saba_cm1, saba_cm_all, whfast_mk_all apply to it) *)
+Lemma lazy_leading :
+  lazy_divisions_exact = true /\ whfast_lazy_kernel_leading = mk_kernel /\
+  saba_cl_word_leading 0 = saba_cm_word 0 /\ saba_cl_word_leading 1 = saba_cm_word 1 /\
+  saba_cl_word_leading 2 = saba_cm_word 2 /\ saba_cl_word_leading 3 = saba_cm_word 3.
+Proof. repeat split; vm_compute; reflexivity. Qed.
+Lemma hybrid : hybrid_ok = true.
+Proof. vm_cast_no_check (eq_refl true). Qed.
